@@ -317,7 +317,8 @@ class AsyncWorld:
         if host is not None:
             hdrs.append((b'host', host.encode()))
         if upgrade_headers:
-            hdrs += [(b'upgrade', b'websocket'), (b'connection', b'Upgrade')]
+            given = {k.lower() for k in (headers or {})}
+            hdrs += [h for h in [(b'upgrade', b'websocket'), (b'connection', b'Upgrade')] if h[0].decode() not in given]
         for k, v in (headers or {}).items():
             hdrs.append((k.lower().encode('latin-1'), v.encode('latin-1')))
         scope = {'type': 'websocket', 'asgi': {'version': '3.0'}, 'http_version': '1.1',
